@@ -11,7 +11,7 @@ FUNCTIONS = [
 ]
 BOUNDS = {
     "quick": "treatment encoder: <=3 (name,dose) rows + <=1 extra mapping row; 1-d encoder: <=3 names + <=1 extra; ; names solver-chosen from a pool of unequal lengths with shared prefixes; 300 distinct concrete names with one symbolic dose; bad mappings alone and next to a valid one; "
-             "Screen: 2 rows x arity<=2 (and 1 row x arity 3); names/control name arbitrary strings up to order-isomorphism, doses arbitrary reals; Plate.merge: 4 rows with symbolic plate names, two consecutive merges of solver-chosen plate pairs",
+             "Screen: 2 rows x arity<=2 (and 1 row x arity 3); names/control name arbitrary strings up to order-isomorphism, doses arbitrary reals; Plate.merge: 4 rows with symbolic plate names, two consecutive merges of solver-chosen plate pairs; one 2x2 screen whose name / dose arrays are transposed views (memory order differs from index order), either or both",
     "thorough": "treatment encoder: <=4 rows, and 3+1 / 2+2 with superset mapping; 1-d encoder: <=5, 3+2; Screen: up to 4 (name,dose) cells fully symbolic (2x2 one plate), up to 4 cells with concrete doses for arity 3-4 and superset mappings; pool-name configurations with more rows; 1000 distinct names; Plate.merge: 4 rows / three merges and 5 rows / two merges",
 }
 ASSUMPTIONS = [
